@@ -766,7 +766,8 @@ pub fn arb_case(valid_only: bool) -> impl Strategy<Value = Case> {
 
 pub fn run(r: &Run) {
     r.set_rule(RULE);
-    r.assume("the decoding codec is the one the daemon would negotiate for generated capability sets; hangs are detected by an iteration bound (bytes+1), not by wall clock");
+    r.assume("the decoding codec is the one the daemon would negotiate for generated capability sets; a decoder that is called again without consuming input is detected by an iteration bound (bytes+1); a single decoder call that does not return within 60 s (other inputs take microseconds) is reported as a stall by the engine's per-case watchdog, with the input as replay");
+    r.case_budget.store(60, std::sync::atomic::Ordering::Relaxed);
     r.assume("RTR: a PDU whose length field is at least 8 and fully buffered is a complete frame (RFC 8210 §5); BGP: header length within [19, negotiated max] and fully buffered");
     r.prop("mutated-streams", r.tier.pick(120_000, 4_000_000), || arb_case(false), check);
     r.prop("valid-streams-fragmented", r.tier.pick(20_000, 500_000), || arb_case(true), check);
